@@ -255,6 +255,16 @@ Proof.
 Qed.
 Print Assumptions c05_tail_pinned.
 
+(* the context frame's instruction = resume address = the context's ip; a frame's module is looked up with, and
+   fill_symbol symbolizes, the frame's `instruction` (not its return address) -- as the Rust text has it now *)
+Theorem c05_lib_pinned :
+  (forall r v t, f_instr (from_context r v t) = lib_from_context_instruction (r_ip r) (r_sp r) /\
+                 f_resume (from_context r v t) = lib_from_context_resume (r_ip r) (r_sp r)) /\
+  (forall mods f, frame_module mods f = d_module_at mods (lib_module_lookup_address (f_instr f) (f_resume f))) /\
+  (forall f, lib_symbol_lookup_address (f_instr f) (f_resume f) = f_instr f).
+Proof. exact lib_pinned. Qed.
+Print Assumptions c05_lib_pinned.
+
 Theorem c05_generated_walk_is_model :
   forall archid p os mem module_at max_module_addr cfi_walk instr_valid fuel r v,
     walk_stack_gen p (arch_of archid) (tail_of archid) os mem module_at max_module_addr cfi_walk instr_valid fuel r v =
